@@ -271,3 +271,23 @@ func ZZ_C02_ReplicaAckImpliesApplied() {
 	}
 	zzCleanupFiles()
 }
+
+// C01 / C06 (the block map a reopen or a revert builds from the files' extents): for any
+// presence map over PB blocks in PF files - so that a file can have several extents
+// and FIEMAP hands them back over several calls - preload leaves every block of the map
+// at the newest file that holds it (never at an older file that holds older data).
+func ZZ_C01_PreloadMap() {
+	B, U := zzParam("PB", 5), zzParam("U", 2)
+	F := zzParam("PF", 2)
+	z := zzMkDiffDisk(B, U, F, false)
+	d := z.d
+	err := preload(d)
+	zzAssert(err == nil, "C01.preloadmap.error")
+	for b := 0; b < B; b++ {
+		t := z.top(b, F)
+		zzAssert(int(d.location[b]) == t, "C01.preloadmap.block-not-mapped-to-the-newest-file-holding-it")
+	}
+	z.checkInvD("C01.preloadmap")
+	zzReach("C01.preloadmap.done")
+	zzCleanupFiles()
+}
